@@ -127,6 +127,7 @@ type Enc struct {
 	nEntryAsm      int
 	groupTail      []*Oblig
 	atVars         map[string]SV
+	atSelect       *ssa.Select // the select statement whose at-clauses are being applied (selhas / selhassend)
 	gaddrs         []Term
 	privCells      []privCell
 	labels         map[string]*State
@@ -803,6 +804,7 @@ func (e *Enc) val(v ssa.Value) Val {
 		name := "fn$" + v.String()
 		e.declare(smtName(name), "Int")
 		x := Val{T: smtName(name)}
+		e.assumeG(tEq(sx("fnid", x.T), tInt(int64(e.W.typeIDByName("fn:"+normalizeFnKey(v.String()))))))
 		e.vals[v] = x
 		return x
 	case *ssa.Builtin:
